@@ -150,6 +150,10 @@ def list_subqueries(segment: BaseSegment) -> list[SubQueryTuple]:
                                 else None
                             )
                             subquery.append(SubQueryTuple(bracketed_segment, alias))
+                for bracketed in expression.get_children("bracketed"):
+                    # scalar subquery directly in the select list: select (select max(x) from t2) as m from t1
+                    if is_subquery(bracketed):
+                        subquery.append(SubQueryTuple(bracketed, None))
             elif function := select_clause_element.get_child("function"):
                 for bracketed in function.recursive_crawl("bracketed"):
                     if is_subquery(bracketed):
